@@ -184,6 +184,8 @@ def gen_spec(rng, form=None, want=None):
                          rng.randint(-0xFFFFFFFF, 0xFFFFFFFF)])
         c = us_to_wall(us)
         tz = rng.choice([None, ["utc"]])
+    if tz and tz[0] == "zone" and zone(tz[1]) is None:
+        tz = ["fixed", 3600]  # zone database not available on this machine: stay inside the class with a fixed offset
     spec = {"form": form, "c": c, "tz": tz, "fold": fold}
     if form in ("iso", "isobytes"):
         spec["sep"] = rng.choice(["T", "T", " "])
